@@ -118,8 +118,15 @@ func (a *IBCAdapter) ParsePacket(
 		return nil, err
 	}
 
+	// NOTE: sdk.NewCoin panics on invalid input, and the packet has not been
+	// validated by the ICS-20 application yet.
+	coin := sdk.Coin{Denom: denom, Amount: amount}
+	if err := coin.Validate(); err != nil {
+		return nil, errorsmod.Wrap(err, "invalid coin")
+	}
+
 	return &types.ParsedData{
-		Coin:    sdk.NewCoin(denom, amount),
+		Coin:    coin,
 		Payload: *payload,
 	}, nil
 }
